@@ -42,6 +42,20 @@ func main() {
 		for _, k := range ks {
 			fmt.Println(k + "\t" + d[k].Sig)
 		}
+	case "forwarders":
+		// prints the pure forwarders of the tree: F's body is `return G(params…)` (used once, on the pinned tree, to freeze
+		// baseline_forwarders.txt)
+		prog := LoadProg(repoRoot(), nil)
+		var out []string
+		for _, fn := range prog.ModFuncs {
+			if g := forwarderTarget(prog, fn); g != "" {
+				out = append(out, prog.Name(fn)+"\t"+g)
+			}
+		}
+		sort.Strings(out)
+		for _, l := range out {
+			fmt.Println(l)
+		}
 	case "normalised":
 		// debugging aid: prints the normalised source of the files the overlay replaces
 		for path, c := range normaliseOverlay(repoRoot()) {
